@@ -437,6 +437,7 @@ func check(res *engine.Result, o *opDef, n int64, pre, post *[3]obsVar, t *track
 		}
 	}
 	// ---- vacuity counters and the non-triviality rule
+	res.Hit("judged") // histories with an inapplicable step are executed up to that step and judge nothing
 	shared := false
 	for i := 0; i < 3; i++ {
 		for j := i + 1; j < 3; j++ {
